@@ -147,8 +147,11 @@ theorem C11_oracle_holds (evs : List Ev) (id : Nat) (x : Sub) (hx : (run init ev
 /-- The facts regenerated from blockntfns/manager.go on this run that the model
 relies on: the channel capacity; registration goes through the handler goroutine
 (`m.newSubscriptions <- sub`), the client map is only mutated by the two
-handler-side functions, which only `subscriptionHandler` calls; the backlog is
-pushed before the client is inserted into the map; fan-out reaches every client
+handler-side functions, which only `subscriptionHandler` calls; the backlog
+lookup (`NotificationsSinceHeight`) is made by the handler-side registration
+function and nowhere else, so snapshot, backlog push and map insert are one step
+of the handler goroutine; the backlog is pushed before the client is inserted
+into the map; fan-out reaches every client
 of the map; pushes and forwards are blocking (nothing dropped); `cancel()` is
 once-guarded and is exactly stop-queue, close-quit, wait-forwarder,
 close-channel, the only close of that channel. -/
@@ -156,6 +159,7 @@ theorem C11_source_facts :
     Gen.Subs.ntfnChanCap = 20 ∧ Gen.Subs.registersViaHandler = true ∧
     Gen.Subs.mapMutators = ["handleNewSubscription", "handleCancelSubscription"] ∧
     Gen.Subs.mapMutatorCallers = ["subscriptionHandler"] ∧
+    Gen.Subs.backlogLookupCallers = ["handleNewSubscription"] ∧
     Gen.Subs.backlogBeforeInsert = true ∧ Gen.Subs.fanoutEveryClient = true ∧
     Gen.Subs.pushBlocking = true ∧ Gen.Subs.forwardBlocking = true ∧
     Gen.Subs.cancelOnce = true ∧
@@ -188,6 +192,14 @@ example : ((run init demo).subs 2).map (fun x => (x.closed, x.chan.length + x.qu
 example :
     let evs := [Ev.subscribe 1 0 []] ++ ((List.range 25).map fun i => [Ev.emit ⟨i, true, i⟩, .handlerFanout, .forward 1]).flatten
     ((run init evs).subs 1).map (fun x => (x.chan.length, x.queue.length, x.delivered.length)) = some (20, 5, 0) := by decide
+/-- the registration window: n2 is emitted while subscriber 2's backlog lookup (snapshot [n1]) is in
+progress in the handler; it waits at the source, is fanned out after the registration and reaches
+subscriber 2 after its backlog, and subscriber 1 as usual -/
+example :
+    let evs := [Ev.subscribe 1 0 [], .emit n2, .subscribe 2 4 [n1], .handlerFanout, .forward 1, .forward 2, .forward 2,
+                .consume 2, .consume 2, .consume 1]
+    outs init evs = [.ok, .unit, .ok, .ok, .unit, .unit, .unit, .item n1, .item n2, .item n2] ∧
+    ((run init evs).subs 2).map (fun x => (x.backlog, x.since, x.delivered)) = some ([n1], [n2], [n1, n2]) := by decide
 /-- after stop, reads drain the channel and then report `closed` -/
 example : outs init [.subscribe 1 0 [n1, n2], .forward 1, .stop, .consume 1, .consume 1, .forward 1, .consume 1] =
     [.ok, .unit, .unit, .item n1, .closed, .unit, .closed] := by decide
